@@ -40,6 +40,13 @@ theorem expPieces_le {len pl : Int} (hl : 0 ≤ len) (hp : 0 < pl) :
     omega
   omega
 
+theorem expPieces_zero {pl : Int} (hp : 0 < pl) : expPieces 0 pl = 0 := by
+  rw [expPieces_eq (Int.le_refl 0) hp]
+  have : (0 : Int).toNat = 0 := rfl
+  rw [this, Nat.zero_add]
+  have : pl.toNat - 1 < pl.toNat := by omega
+  rw [Nat.div_eq_of_lt this]; rfl
+
 theorem raiseInt_err {n : Int} {e : ErrKind} (hn : n.natAbs < 10 ^ maxStrDigits)
     (h : (raiseInt n : Except ErrKind Unit) = .error e) : e = .metainfo := by
   unfold raiseInt intTooBig at h
